@@ -312,6 +312,48 @@ def _bqm_task(task):
                 except Exception as e:  # the reference decoder itself must not take the check down
                     rec.setdefault("decode_skipped", []).append(f"{type(e).__name__}: {e}"[:60])
         rec["decode_cases"] = dcases
+        # ---- samples that do not name every argument bit (a model does not mention a bit the function ignores, and a
+        # sampler returns only the model's variables): every bit the sample does name must be spelled at its own position
+        import itertools
+        partial = []
+        for j in range(task.get("n_partial", 3)):
+            full = {v: rng.randint(0, 1) for v in names}
+            drop = [v for v in inputs if rng.random() < (0.35 if j else 0.6)]
+            if j == 0 and len(inputs) > 1:
+                drop = [v for v in inputs[:-1] if rng.random() < 0.6] or [inputs[0]]  # lower bits absent, the last one present
+            drop = drop[:6]
+            partial.append(({k: v for k, v in full.items() if k not in drop}, drop))
+        try:
+            dec = decode_samples(qf, [dict(p) for p, _ in partial])
+        except _Timeout:
+            raise
+        except BaseException as e:  # noqa
+            rec["problems"].append(dict(kind="decode", what=f"decode_samples raised {type(e).__name__}: {e} on a sample that does not name every argument bit"[:240]))
+            return rec
+        finally:
+            del stub.COMPILED[:]
+        n_part = 0
+        for (smp, drop), d in zip(partial, dec):
+            for a in qf.args:
+                absent = [bv for bv in a.bitvec if bv in drop]
+                if not absent or len(absent) > 4 or a.name not in d.sample:
+                    continue
+                try:
+                    pg = plain(a.ttype, d.sample[a.name])
+                    cands = []
+                    for fill in itertools.product([0, 1], repeat=len(absent)):
+                        m = dict(zip(absent, fill))
+                        cands.append(ref_decode(a.ttype, [smp[bv] if bv in smp else m[bv] for bv in a.bitvec]))
+                    n_part += 1
+                    if pg not in cands:
+                        rec["problems"].append(dict(kind="decode", what="decode_samples does not return a value that spells the bits the sample names",
+                                                    argument=a.name, sample=dict((bv, smp.get(bv, "absent")) for bv in a.bitvec),
+                                                    decoded=repr(d.sample[a.name]), possible=repr(cands[:8])))
+                except SerError:
+                    pass
+                except Exception as e:
+                    rec.setdefault("decode_skipped", []).append(f"{type(e).__name__}: {e}"[:60])
+        rec["partial_samples"] = n_part
         return rec
     except _Timeout:
         rec["status"] = "timeout"
@@ -628,6 +670,7 @@ def run(tier, seed):
         skipped=dict(skipped), coq_failing={k: len(v) for k, v in coq_fail.items() if v},
         model_of_code_as_found_disagrees=len(coq_fail.get("chk_case_poly_today", ())),
         decode_cases=sum(len(r.get("decode_cases", [])) for r in recs),
+        decode_partial_samples=sum(r.get("partial_samples", 0) for r in recs),
         bool_arguments_decoded_as_int=sum(r.get("bool_as_int", 0) for r in recs),
         decode_skipped=sum(len(r.get("decode_skipped", [])) for r in recs),
         impl_failures=n_impl, exhaustive=False, traces_validated_against_impl=len(cases.get("bqm", [])),
